@@ -120,6 +120,20 @@ func init() {
 			Monitors: []Monitor{monitorSizing}, OpName: sizingOpName, NoModel: true,
 			Rule: "statistical acceptance test (not a proof): empirical false-positive / over-estimate frequencies against 1.5x budget + 5 sigma", Quick: 6, Thorough: 150},
 	}
+	machineByID[12] = newSchedMachine
+	for kind, nm := range map[int]string{1: "sched-bloom", 2: "sched-cms", 3: "sched-hll", 4: "sched-cuckoo", 5: "sched-topk"} {
+		registry["C16"] = append(registry["C16"], Suite{Name: nm, NewMachine: newSchedMachine, Gen: genC16(kind),
+			Monitors: []Monitor{monitorSched(kind)}, OpName: schedOpName,
+			Nontrivial: func(r *RunResult) bool {
+				for _, op := range r.Ops {
+					if op.L[0].I() == 2 && len(op.L[3].L) >= 4 {
+						return true
+					}
+				}
+				return false
+			},
+			Rule: "two clients issue one update each against the same Redis-backed structure under a random schedule of >=4 turns at Redis-command granularity (go-redis hook); results and final state diffed against the interleaving model", Quick: 40, Thorough: 1200})
+	}
 	registry["C19"] = []Suite{
 		{Name: "shared-db", NewMachine: newMultiMachine, Gen: genC19,
 			OpName: func(op Tok) string {
